@@ -595,6 +595,10 @@ class Visitor:
 
                 existing_member = parent.members[name]
                 with suppress(AliasResolutionError, CyclicAliasError):
+                    if self.current.kind is Kind.FUNCTION and "property" in existing_member.labels:
+                        # `self.x = ...` in `__init__` where `x` is a property of the class:
+                        # the assignment goes through the property (its setter), it does not replace it.
+                        continue
                     # Forward the labels of a previous assignment, not the ones a previous
                     # function or property got from its decorators or its definition.
                     labels |= existing_member.labels & {"module-attribute", "class-attribute", "instance-attribute"}
